@@ -863,10 +863,12 @@ func (r *raft) broadcastHeartbeatMessageWithHint(ctx pb.SystemCtx) {
 			r.sendHeartbeatMessage(id, ctx, rm.match)
 		}
 	}
-	if ctx == zeroCtx {
-		for id, rm := range r.nonVotings {
-			r.sendHeartbeatMessage(id, zeroCtx, rm.match)
-		}
+	// nonVotings do not take part in the ReadIndex protocol, their heartbeats
+	// never carry the ctx hint. they still need heartbeats while ReadIndex
+	// requests are pending, a paused nonVoting remote is only resumed by its
+	// heartbeat response.
+	for id, rm := range r.nonVotings {
+		r.sendHeartbeatMessage(id, zeroCtx, rm.match)
 	}
 }
 
